@@ -149,6 +149,34 @@ def run(ctx):
             jobs.append((inp, files, r))
         finally:
             impl.drop_scratch(d)
+    # ---- corpus: shapes the generator does not reach (run model-free: the hook-trace invariant)
+    corpus = [
+        # the include path is only known after a later definition (F-C02-1)
+        ([("m.mac", ".link 2000\nnop\n.include <x>/nc.mac/\nafter: .word after\nx = 151\n"), ("inc.mac", ".word 7, 6\n")], 1),
+        ([("m.mac", ".link 2000\n.blkb n\n.even\n. = . + 6\nl: .word l, .\nn = 5\n")], 1),
+        ([("m.mac", ".link 2000\n.repeat cnt { .word . \n .ascii /abc/ \n .even }\nl: .word l\ncnt = 3\n")], 1),
+        ([("m.mac", ".link 2000\ninsert_file <f>/lob.bin/\n.even\nl: .word l\nf = 142\n")], 1),
+    ]
+    for cfiles, cn in corpus:
+        d = impl.scratch_dir()
+        try:
+            files = [(os.path.join(d, p), t) for p, t in cfiles]
+            for p, t in files[cn:]:
+                with open(p, "w", encoding="utf-8") as f:
+                    f.write(t)
+            with open(os.path.join(d, "blob.bin"), "wb") as f:
+                f.write(bytes(range(7)))
+            r = impl.assemble(files[:cn], want_symbols=True)
+            inp = {"files": cfiles, "nmain": cn, "main_paths": [p for p, _ in files[:cn]]}
+            ctx.case(("corpus", json.dumps(cfiles)))
+            ctx.count("corpus")
+            if r.outcome != "ok":
+                ctx.violation("a corpus program does not assemble", inp, expected="ok", observed=r.summary())
+            else:
+                trace_invariant(ctx, r, inp, dict(files))
+        finally:
+            impl.drop_scratch(d)
+
     answers = ctx.driver.ask(reqs)
     unsupported = 0
     for (inp, files, r), a in zip(jobs, answers):
